@@ -1,0 +1,7 @@
+//go:build !verif
+
+package muxer
+
+// Empty stub for the verification hooks (see verif_on.go, build tag "verif").
+
+func (m *Muxer) verifPt(string) {}
